@@ -106,9 +106,12 @@ def _graph(v):
             "U": sorted(sorted(e) for e in v[3]), "C": sorted(map(list, v[4]))}
 
 
-def pags_of_mags(n):
-    """[(mag, pag)] for every valid MAG on n nodes, through the extracted spec (run_case mode 3)"""
+def pags_of_mags(n, sample=None, rng=None):
+    """[(mag, pag)] for every valid MAG on n nodes (or of a random sample of the candidates), through the extracted spec
+    (run_case mode 3)"""
     mags = list(gr.enum_class(n, MAG_KINDS))
+    if sample is not None and len(mags) > sample:
+        mags = rng.sample(mags, sample)
     lines = [sxmod.dumps([3, gr.enc(m)]) for m in mags]
     nsh = max(1, min(int(os.environ.get("VERIF_JOBS", "16")), len(lines) // 20 + 1))
     shards = [lines[i::nsh] for i in range(nsh)]
@@ -213,6 +216,12 @@ def base_cases(tier, rng):
     for n in range(1, nmax + 1):
         for m, p in pags_of_mags(n):
             yield {"kind": "pagofmag%d" % n, "g": p, "mag": m, "mode": 1}
+    if tier == "quick":
+        # a sample of PAGofMAG(4) with at least one o-> edge (membership verdicts by the oracle)
+        for m, p in pags_of_mags(4, sample=260, rng=rng):
+            dd = {tuple(e) for e in p["D"]}
+            if any((b, a) in dd for a, b in p["C"]):
+                yield {"kind": "pagofmag4s", "g": p, "mag": m, "mode": 1}
     for n in range(1, 4):
         for g in gr.enum_marks(n, ext=True):
             yield {"kind": "marks%d" % n, "g": g, "mode": 0}
@@ -506,6 +515,17 @@ def compare(case, impl, model):
         return "impl:" + VERDICTS[impl["verdicts"].index(False)]
     if impl.get("rounds"):
         return "impl:rounds:" + impl["rounds"]
+    # OUTSIDE the o-o component the result is deterministic (o-> becomes ->, -o becomes ->, every other edge kept): it must
+    # equal the proved model's result exactly, pair by pair
+    g = case["g"]
+    cs = {tuple(e) for e in g["C"]}
+    dd = {tuple(e) for e in g["D"]}
+    oo = {frozenset(e) for e in cs if (e[1], e[0]) in cs and e not in dd and (e[1], e[0]) not in dd}
+
+    def outside(m):
+        return {k: sorted(e for e in m[k] if frozenset(e) not in oo) for k in "DBU"}
+    if impl["m"]["V"] != model["m"]["V"] or outside(impl["m"]) != outside(model["m"]):
+        return "impl:marks-outside-the-circle-component-differ-from-the-model"
     return None
 
 
